@@ -441,6 +441,31 @@ func (h *histState) step(op string) string {
 		return "ok"
 	case "revcomp":
 		return errs(h.sb.ReverseComplement())
+	case "mask", "maskocc", "maskuniq":
+		ref := pctDec(f[1])
+		if f[1] == "_" {
+			ref = ""
+		}
+		if ref != "" {
+			h.addProbe(ref)
+		}
+		if h.al == nil {
+			return "na"
+		}
+		unrep := func(s string) string {
+			s = pctDec(s)
+			if s == "_" {
+				return ""
+			}
+			return s
+		}
+		switch f[0] {
+		case "mask":
+			return errs(h.al.Mask(ref, atoi(f[2]), atoi(f[3]), unrep(f[4]), atob(f[5]), atob(f[6])))
+		case "maskocc":
+			return errs(h.al.MaskOccurences(ref, atoi(f[2]), unrep(f[3])))
+		}
+		return errs(h.al.MaskUnique(ref, unrep(f[2])))
 	case "diffwithfirst":
 		if h.al == nil {
 			return "na"
